@@ -1,4 +1,7 @@
 INIT Init
 NEXT Next
-INVARIANT AllOK
+INVARIANT ArithAt
+INVARIANT StoreAt
+INVARIANT SetsOK
+INVARIANT ConstOK
 CHECK_DEADLOCK FALSE
